@@ -1,9 +1,178 @@
-import Olla.Driver.Util
+import Olla.Driver.Retry
+import Olla.Driver.C04
+import Olla.Model.Counters
+import Olla.Spec.C19
 
 namespace Olla.Driver.C19
-open Lean Olla.Driver
+open Lean Olla.Driver Olla.Driver.Retry Olla.Model.Retry Olla.Model.Counters Olla.Spec.C19
 
-/-- placeholder until the C19 driver is written -/
-def main : IO Unit := pure ()
+/-- Sub-lists (which of the endpoints that can go offline had already done so when a request arrived). -/
+def sublists : List Nat → List (List Nat)
+  | [] => [[]]
+  | x :: xs => let r := sublists xs; r ++ r.map (x :: ·)
+
+def retryable : Attempt → Bool
+  | .failBefore true => true
+  | .failAfter _ _ true => true
+  | _ => false
+
+/-- The attempt a scripted backend produces; the client-abort scenario's stalled stream ends with
+    `context.Canceled`, which the engines record as a success (variant `clientAbort`). -/
+def outcome19 (eps : List EpSpec) (i : Nat) : Attempt :=
+  match eps.find? (·.idx == i) with
+  | none => .failBefore false
+  | some e =>
+    if e.kind == "body-stall" then
+      (match clientAbort with | .pinned => .ok e.resp | .fixed => .failAfter e.resp e.k false)
+    else outcomeOf eps i
+
+/-- Every run of one request the model allows: candidate snapshot (in a racy scenario an endpoint that
+    fails retryably may already have been marked offline by another request) x selection order. -/
+def possibleRuns (eps : List EpSpec) (balancer : String) (racy breakerMayTrip : Bool) : List (List Ev × Result) :=
+  let cands := candidates eps
+  let out0 := outcome19 eps
+  let removable := if racy then cands.filter (fun i => retryable (out0 i)) else []
+  let sets := (sublists removable).map (fun rm => cands.filter (fun i => !rm.contains i))
+  -- olla engine under concurrent load: an endpoint whose round trips fail trips its breaker after a few
+  -- failures, so for a later request the attempt on it is a skip
+  let trippable := if breakerMayTrip then cands.filter (fun i => match out0 i with | .failBefore _ => true | _ => false) else []
+  (sublists trippable).flatMap (fun tripped =>
+    let out := fun i => if tripped.contains i then Attempt.skip else out0 i
+    sets.flatMap (fun S =>
+      if balancer == "priority" then [execute (selectPrio eps) out S]
+      else (Olla.Driver.C04.perms S).map (fun p => execute (Olla.Driver.C04.selectPref p) out S)))
+
+def kindOf (eps : List EpSpec) (i : Nat) : String := (eps.find? (·.idx == i)).map (fun e => if e.opened then "open" else e.kind) |>.getD "?"
+
+/-- Backends that see the request: every contacted endpoint except refused connections. -/
+def seenList (eps : List EpSpec) (tr : List Ev) : List Nat := (contactedList tr).filter (fun i => kindOf eps i != "refuse")
+
+/-- How a translated request ends (for the translator collector), from the model run. -/
+def translatorEnd (stream : Bool) (run : List Ev × Result) : TranslatorEnd :=
+  match run.2 with
+  | .served _ => (match clientStatus run.1 with | some (_, s, _) => .answered s | none => .answered 200)
+  | .noEndpoints => .rejected
+  | _ => if stream then .proxyErrorAfterStart else .proxyErrorBeforeStart
+
+/-- Contribution of one run to [collector ok, failed, engine total, ok, failed, translator ok, failed] ++ per endpoint [ok, failed]. -/
+def contribution (eps : List EpSpec) (route : String) (run : List Ev × Result) : List Int :=
+  let tr := requestTrace errorStatus run.1
+  let noCand : Nat := match run.2 with | .noEndpoints => 1 | _ => 0
+  let isTr := route != "proxy"
+  -- the translator handler answers 404 itself when there is no candidate: the engine is not entered
+  let entered : Nat := if isTr && noCand == 1 then 0 else 1
+  let eng := engine engineTotals entered (if isTr then 0 else noCand) tr
+  let t : Stats := if isTr then translator translatorFlag [translatorEnd (route == "anthropic-stream") (tr, run.2)] {} else {}
+  [(countSucc tr : Int), countFail tr, eng.total, eng.ok, eng.failed, t.ok, t.failed] ++
+    eps.flatMap (fun e => [(succOn e.idx tr : Int), (failOn e.idx tr : Int)])
+
+def addVec (a b : List Int) : List Int := List.zipWith (· + ·) a b
+
+def sumSets (sets : List (List (List Int))) (zero : List Int) : List (List Int) :=
+  sets.foldl (fun acc s => (acc.flatMap (fun a => s.map (addVec a))).eraseDups) [zero]
+
+/-- Prefix of a run up to and including the first request that reaches a (gated) backend. -/
+def heldPrefix (eps : List EpSpec) : List Ev → List Ev
+  | [] => []
+  | .contacted e :: rest => if kindOf eps e != "refuse" then [.contacted e] else .contacted e :: heldPrefix eps rest
+  | x :: rest => x :: heldPrefix eps rest
+
+def stats3 (j : Json) : Int × Int × Int :=
+  let a := jarr j
+  (jint (a.getD 0 Json.null), jint (a.getD 1 Json.null), jint (a.getD 2 Json.null))
+
+def handle (j : Json) : IO Unit := do
+  let case := jnat (jget j "case")
+  let sc := jget j "scenario"
+  let impl := jget j "impl"
+  let family := jstr (jget j "family")
+  if jstr (jget impl "start_err") != "" then
+    emit case false true "start-error" "" (jstr (jget impl "start_err")); return
+  let eps := parseEps sc
+  let balancer := jstr (jget sc "balancer")
+  let route := jstr (jget sc "route")
+  let clients := jnat (jget sc "clients")
+  let gated := jbool (jget sc "gated")
+  let racy := clients > 1 && !gated
+  let reqs := jarr (jget impl "reqs")
+  let fin := jget impl "final"
+  -- ---------------------------------------------------------------- observations
+  let contactedOf := fun (r : Json) => (jstrList (jget r "contacted")).map (idxOf eps)
+  let lenOf := fun (i : Nat) => (eps.find? (·.idx == i)).map (·.resp.body.length) |>.getD 0
+  let saw : List ClientSaw := reqs.map (fun r =>
+    let st := jnat (jget r "status")
+    let complete := jbool (jget r "complete") && !jbool (jget r "aborted") && jstr (jget r "err") == ""
+    let full := if route == "proxy" then
+        (match (contactedOf r).getLast? with
+         | some b => complete && jnat (jget r "body_len") == lenOf b   -- the serving backend's whole body arrived
+         | none => false)                                               -- an answer made up by the proxy
+      else complete && jbool (jget r "marker")
+    { status := st, inFull := full })
+  let gaugesFinal : List Int := eps.map (fun e => jint (jget (jget fin "conns") e.name))
+  let (gT, gO, gF) := stats3 (jget fin "global")
+  let (eT, eO, eF) := stats3 (jget fin "engine")
+  let (tT, tO, tF) := stats3 (jget fin "translator")
+  let perEp := eps.map (fun e => stats3 (jget (jget fin "per_ep") e.name))
+  let models := match jget fin "models" with | .obj kvs => kvs.toList.map (fun (p : String × Json) => stats3 p.2) | _ => []
+  -- ---------------------------------------------------------------- the property on the implementation's numbers
+  let pQuiet := quiescent gaugesFinal
+  let mid := jget impl "mid"
+  let firstAt := fun (i : Nat) => (reqs.filter (fun r => (contactedOf r).head? == some i)).length
+  let midOk := if jisNull mid then true else
+    eps.all (fun e => gaugeMatches (jint (jget (jget (jget mid "c") "conns") e.name)) (firstAt e.idx))
+  let pCollector := conserved gT gO gF && perEp.all (fun (t, o, f) => conserved t o f) && models.all (fun (t, o, f) => conserved t o f)
+  let pTranslator := conserved tT tO tF && (route == "proxy" || recordedOnce clients tT)
+  let pEngine := conserved eT eO eF
+  -- every attempt that reached a backend is recorded exactly once at that endpoint's scope
+  let pOnce := (eps.zip perEp).all (fun (e, (t, _, _)) =>
+    let k := if e.opened then "open" else e.kind
+    let reached : Int := (reqs.filter (fun r => (contactedOf r).contains e.idx)).length
+    -- refused connections and breaker skips leave no trace on the backend side
+    k == "refuse" || k == "open" ||
+      (if jstr (jget sc "engine") == "olla" && clients > 1 && (k == "reset0" || k == "close0" || k == "garbage") then t ≥ reached
+       else recordedOnce reached t))
+  let pSucc := successesMatch gO saw
+  let pNoErr := noErrorAsSuccess gO saw
+  let pTrSucc := route == "proxy" || (successesMatch tO saw && noErrorAsSuccess tO saw)
+  -- clients that were relayed a backend's own error status, and clients that went away mid-stream
+  let errRelayed : Int := (reqs.filter (fun r => match (contactedOf r).getLast? with
+      | some b => jnat (jget r "status") ≥ 400 && jstr (jget r "err") == "" && some (jnat (jget r "status")) == (eps.find? (·.idx == b)).map (·.resp.status) && kindOf eps b == "ok"
+      | none => false)).length
+  let aborted : Int := (reqs.filter (fun r => jbool (jget r "aborted"))).length
+  let okResponses : Int := (saw.filter isSuccessResponse).length
+  let spec := pQuiet && midOk && pCollector && pTranslator && pEngine && pOnce && pSucc && pNoErr && pTrSucc
+  let sig := if !pQuiet then "gauge-not-zero-at-quiescence" else if !midOk then "gauge-differs-from-in-flight"
+    else if !pCollector then "collector-not-conserved" else if !pTranslator then "translator-not-conserved"
+    else if !pOnce then "attempt-not-recorded-exactly-once"
+    else if (!pSucc || !pNoErr) && aborted > 0 && gO == okResponses + errRelayed + aborted then "client-abort-recorded-as-success"
+    else if (!pSucc || !pNoErr) && errRelayed > 0 && gO == okResponses + errRelayed then "error-status-recorded-as-success"
+    else if !pSucc || !pNoErr then "successes-differ-from-success-responses"
+    else if !pTrSucc && !noErrorAsSuccess tO saw then "translator-error-status-recorded-as-success"
+    else if !pTrSucc then "translator-failed-stream-recorded-as-success"
+    else if !pEngine then "engine-total-counts-requests-not-attempts" else ""
+  -- ---------------------------------------------------------------- the model: per-request runs, summed
+  let runs := (possibleRuns eps balancer racy (jstr (jget sc "engine") == "olla" && clients > 1)).eraseDups
+  let perReq : List (List (List Ev × Result)) := reqs.map (fun r => runs.filter (fun run => seenList eps run.1 == contactedOf r))
+  let zero : List Int := (List.replicate (7 + 2 * eps.length) 0)
+  let sums := sumSets (perReq.map (fun rs => (rs.map (contribution eps route)).eraseDups)) zero
+  let implVec : List Int := [gO, gF, eT, eO, eF, tO, tF] ++ perEp.flatMap (fun (_, o, f) => [o, f])
+  let explained := perReq.all (fun rs => !rs.isEmpty)
+  let chosen : List (List Ev) := perReq.map (fun rs => (rs.head?.map (·.1)).getD [])
+  let shared := chosen.flatten   -- sequential execution is one interleaving; by `C19_gauge_zero_at_quiescence` all give the same
+  let mGaugesFinal := eps.map (fun e => gauge e.idx shared 0)
+  let mMid := eps.map (fun e => gauge e.idx (chosen.flatMap (heldPrefix eps)) 0)
+  let iMid := if jisNull mid then mMid else eps.map (fun e => jint (jget (jget (jget mid "c") "conns") e.name))
+  let agree := explained && sums.contains implVec && mGaugesFinal == gaugesFinal && mMid == iMid
+  let kinds := String.intercalate "," (eps.map (fun e => if e.opened then "open" else e.kind ++ (if e.resp.status ≥ 400 then toString e.resp.status else "")))
+  let multi := chosen.any (fun t => attempts t > 1)
+  let branch := s!"{family}.{route}.{balancer}" ++ (if multi then ".failover" else "") ++ (if clients > 1 then ".concurrent" else "")
+  emit case agree spec branch sig
+    (if agree && spec then "" else
+      s!"{jstr (jget sc "engine")}/{balancer}/{route} kinds {kinds} clients {clients}{if gated then " gated" else ""}: gauges at quiescence {gaugesFinal}" ++
+      (if jisNull mid then "" else s!", mid-flight gauges {iMid} vs in flight {eps.map (fun e => firstAt e.idx)}") ++
+      s!", collector [total,ok,failed] [{gT},{gO},{gF}], engine [{eT},{eO},{eF}], per endpoint {perEp.map (fun (t, o, f) => [t, o, f])}, translator [{tT},{tO},{tF}]; clients saw (status, in full) {(saw.map (fun c => (c.status, c.inFull))).eraseDups}; success responses {(saw.filter isSuccessResponse).length}; model totals {sums.take 4} gauges {mGaugesFinal} mid {mMid}")
+    (toJson (sums.take 4))
+
+def main : IO Unit := do forLines (← IO.getStdin) handle
 
 end Olla.Driver.C19
